@@ -293,7 +293,9 @@ Inductive op :=
 | OP (k:N) | OPE (k:N) | OT (k:N) (d:Z) | OU (k:N) (d:Z) | OCT (k:N) | OI (k:N) (f:nat) | OO (k:N) (f:nat)
 | OCF (f:nat) | OCL (f:nat) | OW (f:nat) | OR (f:nat) | OF (f:nat) | OD (f:nat) | OK (f:nat) | OA (d:N) | OX
 | ORS (k:N) (f:nat) | OWS (k:N) (f:nat) (* stream_socket::async_read_some / async_write_some with user handler k *)
-| ORA (k:N) (f:nat) (n:N) | OWA (k:N) (f:nat) (n:N) (* stream_socket::async_read / async_write of n bytes (reader_all / writer_all) *).
+| ORA (k:N) (f:nat) (n:N) | OWA (k:N) (f:nat) (n:N) (* stream_socket::async_read / async_write of n bytes (reader_all / writer_all) *)
+| ORO (f:nat) (* a new socket that receives the descriptor NUMBER of the closed device f is assigned to the device *)
+| OTO (k:N) (ob:N) (d:Z) | OCO (ob:N) (* deadline_timer OBJECT ob: expires_at + async_wait(handler k) / cancel() *).
 Record osfd := mkOs { closedA : bool; hup : bool; inq : bool (* = 0 < inb *); full : bool;
                       nval : option (bool*bool) (* poll reactor: interest it silently dropped after POLLNVAL *) ;
                       inb : N (* bytes the peer wrote that side A has not read yet *) }.
@@ -307,18 +309,22 @@ Record sim := mkSim { ms : st; os : list osfd; phases : list (list op); bodies :
                       cprog : list (N * (N * N)) (* all-variants: user handler -> (bytes still wanted, bytes transferred) *);
                       cimm : list (N * N) (* immediate completions: post token -> code number the user handler gets *);
                       olog : list (N*N*N) (* user-visible completions: handler, code number, time *);
-                      nextw : N (* next internal token *) }.
-Definition set_ms (x:sim) v := mkSim v (os x) (phases x) (bodies x) (stage x) (tmeta x) (sout x) (rk x) (pickhi x) (mark x) (pickall x) (comp x) (cprog x) (cimm x) (olog x) (nextw x).
-Definition set_os (x:sim) v := mkSim (ms x) v (phases x) (bodies x) (stage x) (tmeta x) (sout x) (rk x) (pickhi x) (mark x) (pickall x) (comp x) (cprog x) (cimm x) (olog x) (nextw x).
-Definition set_phases (x:sim) v := mkSim (ms x) (os x) v (bodies x) (stage x) (tmeta x) (sout x) (rk x) (pickhi x) (mark x) (pickall x) (comp x) (cprog x) (cimm x) (olog x) (nextw x).
-Definition set_stage (x:sim) v := mkSim (ms x) (os x) (phases x) (bodies x) v (tmeta x) (sout x) (rk x) (pickhi x) (mark x) (pickall x) (comp x) (cprog x) (cimm x) (olog x) (nextw x).
-Definition set_tmeta (x:sim) v := mkSim (ms x) (os x) (phases x) (bodies x) (stage x) v (sout x) (rk x) (pickhi x) (mark x) (pickall x) (comp x) (cprog x) (cimm x) (olog x) (nextw x).
-Definition set_mark (x:sim) v := mkSim (ms x) (os x) (phases x) (bodies x) (stage x) (tmeta x) (sout x) (rk x) (pickhi x) v (pickall x) (comp x) (cprog x) (cimm x) (olog x) (nextw x).
-Definition set_sout (x:sim) v := mkSim (ms x) (os x) (phases x) (bodies x) (stage x) (tmeta x) v (rk x) (pickhi x) (mark x) (pickall x) (comp x) (cprog x) (cimm x) (olog x) (nextw x).
+                      nextw : N (* next internal token *);
+                      (* deadline_timer objects: event_id_ as the token it refers to (None = -1); token -> object; what the script expects to
+                         be the outstanding wait of the object (last armed, not completed, not cancelled); effective cancels (token, time) *)
+                      tobj : list (N * option N); towner : list (N*N); tnaive : list (N * option N); tcans : list (N*N) }.
+Definition set_ms (x:sim) v := mkSim v (os x) (phases x) (bodies x) (stage x) (tmeta x) (sout x) (rk x) (pickhi x) (mark x) (pickall x) (comp x) (cprog x) (cimm x) (olog x) (nextw x) (tobj x) (towner x) (tnaive x) (tcans x).
+Definition set_os (x:sim) v := mkSim (ms x) v (phases x) (bodies x) (stage x) (tmeta x) (sout x) (rk x) (pickhi x) (mark x) (pickall x) (comp x) (cprog x) (cimm x) (olog x) (nextw x) (tobj x) (towner x) (tnaive x) (tcans x).
+Definition set_phases (x:sim) v := mkSim (ms x) (os x) v (bodies x) (stage x) (tmeta x) (sout x) (rk x) (pickhi x) (mark x) (pickall x) (comp x) (cprog x) (cimm x) (olog x) (nextw x) (tobj x) (towner x) (tnaive x) (tcans x).
+Definition set_stage (x:sim) v := mkSim (ms x) (os x) (phases x) (bodies x) v (tmeta x) (sout x) (rk x) (pickhi x) (mark x) (pickall x) (comp x) (cprog x) (cimm x) (olog x) (nextw x) (tobj x) (towner x) (tnaive x) (tcans x).
+Definition set_tmeta (x:sim) v := mkSim (ms x) (os x) (phases x) (bodies x) (stage x) v (sout x) (rk x) (pickhi x) (mark x) (pickall x) (comp x) (cprog x) (cimm x) (olog x) (nextw x) (tobj x) (towner x) (tnaive x) (tcans x).
+Definition set_mark (x:sim) v := mkSim (ms x) (os x) (phases x) (bodies x) (stage x) (tmeta x) (sout x) (rk x) (pickhi x) v (pickall x) (comp x) (cprog x) (cimm x) (olog x) (nextw x) (tobj x) (towner x) (tnaive x) (tcans x).
+Definition set_sout (x:sim) v := mkSim (ms x) (os x) (phases x) (bodies x) (stage x) (tmeta x) v (rk x) (pickhi x) (mark x) (pickall x) (comp x) (cprog x) (cimm x) (olog x) (nextw x) (tobj x) (towner x) (tnaive x) (tcans x).
 
-Definition set_comp (x:sim) c i n := mkSim (ms x) (os x) (phases x) (bodies x) (stage x) (tmeta x) (sout x) (rk x) (pickhi x) (mark x) (pickall x) c (cprog x) i (olog x) n.
-Definition set_cprog (x:sim) v := mkSim (ms x) (os x) (phases x) (bodies x) (stage x) (tmeta x) (sout x) (rk x) (pickhi x) (mark x) (pickall x) (comp x) v (cimm x) (olog x) (nextw x).
-Definition set_olog (x:sim) v := mkSim (ms x) (os x) (phases x) (bodies x) (stage x) (tmeta x) (sout x) (rk x) (pickhi x) (mark x) (pickall x) (comp x) (cprog x) (cimm x) v (nextw x).
+Definition set_comp (x:sim) c i n := mkSim (ms x) (os x) (phases x) (bodies x) (stage x) (tmeta x) (sout x) (rk x) (pickhi x) (mark x) (pickall x) c (cprog x) i (olog x) n (tobj x) (towner x) (tnaive x) (tcans x).
+Definition set_cprog (x:sim) v := mkSim (ms x) (os x) (phases x) (bodies x) (stage x) (tmeta x) (sout x) (rk x) (pickhi x) (mark x) (pickall x) (comp x) v (cimm x) (olog x) (nextw x) (tobj x) (towner x) (tnaive x) (tcans x).
+Definition set_olog (x:sim) v := mkSim (ms x) (os x) (phases x) (bodies x) (stage x) (tmeta x) (sout x) (rk x) (pickhi x) (mark x) (pickall x) (comp x) (cprog x) (cimm x) v (nextw x) (tobj x) (towner x) (tnaive x) (tcans x).
+Definition set_tim (x:sim) a b c d := mkSim (ms x) (os x) (phases x) (bodies x) (stage x) (tmeta x) (sout x) (rk x) (pickhi x) (mark x) (pickall x) (comp x) (cprog x) (cimm x) (olog x) (nextw x) a b c d.
 Definition stp (l:label) (x:sim) : sim := set_ms x (step l (ms x)).
 Definition os_get (x:sim) (f:nat) : osfd := nth f (os x) os0.
 Fixpoint list_put {A} (l:list A) (i:nat) (v:A) : list A :=
@@ -408,6 +414,30 @@ Definition do_op (o:op) (x:sim) : sim :=
             if hup o then x else os_put x f (mkOs (closedA o) true (inq o) false (nval o) (inb o))
   | OA d => stp (LTick d) x
   | OX => stp LStop x
+  | ORO f => let o := os_get x f in if closedA o then os_put x f os0 else x
+  | OTO k ob d =>
+      (* deadline_timer::async_wait: event_id_ = set_timer_event(deadline_, waiter) *)
+      let dl := Z.to_N (Z.of_N (clock (ms x)) + d) in
+      let x1 := set_tmeta (add_sout k (ST dl) x) ((k,(false,dl)) :: tmeta x) in
+      stp (LSetTimer k dl) (set_tim x1 ((ob, Some k) :: tobj x1) ((k,ob) :: towner x1) ((ob, Some k) :: tnaive x1) (tcans x1))
+  | OCO ob =>
+      (* the script calls cancel() only while the wait it believes outstanding is certainly still armed (deadline in the future);
+         deadline_timer::cancel: if(event_id_ != -1) { tmp = event_id_; event_id_ = -1; cancel_timer_event(tmp); } *)
+      match assoc (tnaive x) ob with
+      | Some (Some k) =>
+          match assoc (tmeta x) k with
+          | Some (_, dl) =>
+              if N.ltb (clock (ms x)) dl then
+                let x1 := set_tim x (tobj x) (towner x) ((ob, None) :: tnaive x) (tcans x ++ [(k, clock (ms x))]) in
+                match assoc (tobj x1) ob with
+                | Some (Some t) => stp (LCancelTimer t) (set_tim x1 ((ob, None) :: tobj x1) (towner x1) (tnaive x1) (tcans x1))
+                | _ => x1
+                end
+              else x
+          | None => x
+          end
+      | _ => x
+      end
   | ORS k f => comp_start k true f false (add_sout k (SRS f) x)
   | OWS k f => comp_start k false f false (add_sout k (SWS f) x)
   | ORA k f n => comp_start k true f true (set_cprog (add_sout k (SRA f n) x) ((k,(n,0)) :: cprog x))
@@ -485,7 +515,14 @@ Definition poll_phase (x0:sim) : sim :=
 Definition complete (k n:N) (x:sim) : sim := do_ops (body_of x k) (add_olog k n x).
 Definition after_exec (h:N) (c:code) (x:sim) : sim :=
   match assoc (comp x) h with
-  | None => complete h (codenum c) x
+  | None =>
+      (* deadline_timer::waiter::operator(): self->event_id_ = -1; h(e);  - the id is wiped whichever wait of the object completes *)
+      let x0 := match assoc (towner x) h with
+                | Some ob => set_tim x ((ob, None) :: tobj x) (towner x)
+                               (match assoc (tnaive x) ob with Some (Some k) => if N.eqb k h then (ob, None) :: tnaive x else tnaive x | _ => tnaive x end)
+                               (tcans x)
+                | None => x end in
+      complete h (codenum c) x0
   | Some (k,isrd,f,al) =>
       match assoc (cimm x) h with
       | Some n => complete k n x
@@ -528,7 +565,7 @@ Fixpoint run_sim (fuel:nat) (x:sim) : sim * bool :=
 
 Definition START_MS : N := 100000.
 Definition sim0 (r:rkind) (hi al:bool) (nfd:nat) (ph:list (list op)) (bd:list (N*list op)) : sim :=
-  mkSim (set_clock st0 START_MS) (repeat os0 nfd) ph bd 0%nat [] [] r hi 0%nat al [] [] [] [] 1000000.
+  mkSim (set_clock st0 START_MS) (repeat os0 nfd) ph bd 0%nat [] [] r hi 0%nat al [] [] [] [] 1000000 [] [] [] [].
 Definition run_script (fuel:nat) (r:rkind) (hi al:bool) (nfd:nat) (ph:list (list op)) (bd:list (N*list op)) : sim * bool :=
   let x := sim0 r hi al nfd ph bd in
   let x1 := match phases x with ops::rest => do_ops ops (set_phases x rest) | [] => x end in
